@@ -40,7 +40,11 @@ func runC09(r *simkit.Run) {
 	// only); the per-block CheckTx scratch state is then node-local and excluded, everything
 	// else - the nonce tracker included - must still be identical
 	localMempools := c.Bool("replica-local-mempool-traffic")
+	quiet := false // long histories: states are compared at the end of the bulk, not after each of its blocks
 	w.chain.CompareState = func(a *app.ShutterApp) string {
+		if quiet {
+			return ""
+		}
 		st := fullState(a)
 		if localMempools {
 			st = canon.Dump(a, "LastSaved", "Gobpath", "CheckTxState")
@@ -114,22 +118,25 @@ func runC09(r *simkit.Run) {
 	curBlock = pending
 	w.execBlock(pending)
 	c09probe(r, w.chain.Replicas[0].App)
-	// a long history: one keyper has sent well over a thousand transactions, then some of them
+	// a long history: one keyper has sent 1100 to 17000 transactions, then some of them
 	// are replayed byte for byte (per-sender bookkeeping that grows with the history must stay
 	// identical on all replicas)
 	if c.Chance(4, "long-history") {
 		k := w.keys[0]
 		var sent []*txInfo
-		for len(sent) < 1100 {
+		total := []int{1100, 1100, 1100, 4500, 4500, 4500, 4500, 17000}[c.Intn(8, "long-history-length")]
+		for len(sent) < total {
 			var blk []*txInfo
-			for i := 0; i < 55; i++ {
+			for i := 0; i < 55+total/50; i++ {
 				ti := w.mk(k, shmsg.NewBlockSeen(uint64(len(sent))), "blockseen", "long history")
 				blk = append(blk, ti)
 				sent = append(sent, ti)
 			}
 			curBlock = blk
+			quiet = len(sent) < total
 			w.execBlock(blk)
 		}
+		quiet = false
 		var replays []*txInfo
 		for i := 0; i < 40; i++ {
 			cp := *simkit.Pick(c, sent, "long-history-replay")
